@@ -326,9 +326,11 @@ int close(int fd) {
     char *p = fdp(fd, b);
     if (!p) return real(fd);
     struct dec d = decide("close", p, NULL);
-    int ret = real(fd), e = errno;
+    /* forget the descriptor BEFORE it is really closed: once closed the number can be handed to another thread's open,
+     * whose entry must not be wiped by this thread */
     int wr = fdwr[fd];
     track(fd, NULL, 0);
+    int ret = real(fd), e = errno;
     logline("close", p, NULL, ret, ret < 0 ? e : 0, 0, wr, 0);
     after(&d, p, NULL);
     errno = e;
